@@ -29,13 +29,16 @@ import (
 const simPath = "verif/sim/msim/simsync"
 
 type fileReport struct {
-	File      string   `json:"file"`
-	Steps     int      `json:"steps"`
-	Accesses  int      `json:"accesses"`
-	Paths     []string `json:"paths"`
-	SyncRepl  bool     `json:"sync_repointed"`
-	PkgVars   []string `json:"package_vars"`
-	LockCalls int      `json:"lock_calls"`
+	File     string `json:"file"`
+	Steps    int    `json:"steps"`
+	Accesses int    `json:"accesses"`
+	// calls into testify modelled as critical sections; fields of its objects touched directly
+	ForeignCalls  int      `json:"foreign_calls,omitempty"`
+	ForeignDirect []string `json:"foreign_direct,omitempty"`
+	Paths         []string `json:"paths"`
+	SyncRepl      bool     `json:"sync_repointed"`
+	PkgVars       []string `json:"package_vars"`
+	LockCalls     int      `json:"lock_calls"`
 }
 
 var lockMethods = map[string]bool{"Lock": true, "Unlock": true, "RLock": true, "RUnlock": true, "TryLock": true, "TryRLock": true, "Do": true}
@@ -45,12 +48,31 @@ type instr struct {
 	// refers to (state shared between invocations of the closure)
 	captured map[*ast.Object]bool
 	fd       *ast.FuncDecl
-	fset    *token.FileSet
-	base    string
-	recv    string
-	pkgVars map[string]bool
-	rep     *fileReport
-	paths   map[string]bool
+	fset     *token.FileSet
+	base     string
+	recv     string
+	pkgVars  map[string]bool
+	rep      *fileReport
+	paths    map[string]bool
+	// testify: the file imports github.com/stretchr/testify/mock; calls into it are modelled as
+	// critical sections on its own (invisible) mutex, direct accesses to its fields as unguarded
+	testify bool
+}
+
+// names through which generated testify code reaches the library's objects: the embedded
+// mock.Mock / *mock.Call and the expecter's mock field
+var foreignRoots = map[string]bool{"Call": true, "Mock": true, "mock": true}
+
+// methods of mock.Mock promoted into the generated mock struct
+var foreignMethods = map[string]bool{"Called": true, "MethodCalled": true, "On": true, "AssertExpectations": true, "AssertCalled": true, "AssertNotCalled": true,
+	"AssertNumberOfCalls": true, "Test": true, "TestData": true, "IsMethodCallable": true}
+
+func (in *instr) foreignPath(p string) bool {
+	if !in.testify {
+		return false
+	}
+	parts := strings.Split(p, ".")
+	return len(parts) >= 2 && foreignRoots[parts[0]]
 }
 
 func fatal(format string, a ...any) {
@@ -86,6 +108,8 @@ type access struct {
 	path  string
 	write bool
 	capt  string // name of a captured local variable (its address identifies the location)
+	// foreign: "call" = a call into testify, "direct" = a field of one of its objects touched directly
+	foreign string
 }
 
 // collect gathers the accesses of an expression.
@@ -106,6 +130,19 @@ func (in *instr) collect(e ast.Node, write bool, out *[]access) {
 				return // the lock itself is not a data access
 			}
 		}
+		if sel, ok := x.Fun.(*ast.SelectorExpr); ok && in.testify {
+			p, isChain := in.chain(sel)
+			if (isChain && (in.foreignPath(p) || foreignMethods[p])) || (!isChain && foreignMethods[sel.Sel.Name]) {
+				*out = append(*out, access{path: sel.Sel.Name, foreign: "call"})
+				if !isChain {
+					in.collect(sel.X, false, out)
+				}
+				for _, a := range x.Args {
+					in.collect(a, false, out)
+				}
+				return
+			}
+		}
 		in.collect(x.Fun, false, out)
 		for _, a := range x.Args {
 			in.collect(a, false, out)
@@ -113,18 +150,22 @@ func (in *instr) collect(e ast.Node, write bool, out *[]access) {
 		return
 	case *ast.SelectorExpr:
 		if p, ok := in.chain(x); ok {
-			*out = append(*out, access{true, p, write, ""})
+			if in.foreignPath(p) {
+				*out = append(*out, access{path: p, write: write, foreign: "direct"})
+				return
+			}
+			*out = append(*out, access{true, p, write, "", ""})
 			return
 		}
 		in.collect(x.X, false, out)
 		return
 	case *ast.Ident:
 		if in.captured != nil && x.Obj != nil && in.captured[x.Obj] {
-			*out = append(*out, access{false, "captured." + x.Name, write, x.Name})
+			*out = append(*out, access{false, "captured." + x.Name, write, x.Name, ""})
 			return
 		}
 		if in.pkgVars[x.Name] {
-			*out = append(*out, access{false, "pkg." + x.Name, write, ""})
+			*out = append(*out, access{false, "pkg." + x.Name, write, "", ""})
 		}
 		return
 	case *ast.IndexExpr:
@@ -237,11 +278,26 @@ func (in *instr) probes(s ast.Stmt) []ast.Stmt {
 	var out []ast.Stmt
 	site := &ast.BasicLit{Kind: token.STRING, Value: strconv.Quote(in.site(s))}
 	seen := map[access]bool{}
+	var foreignCalls []ast.Stmt
+	simCall := func(fn string, args ...ast.Expr) ast.Stmt {
+		return &ast.ExprStmt{X: &ast.CallExpr{Fun: &ast.SelectorExpr{X: ast.NewIdent("__sim"), Sel: ast.NewIdent(fn)}, Args: args}}
+	}
 	for _, a := range in.stmtAccesses(s) {
 		if seen[a] {
 			continue
 		}
 		seen[a] = true
+		if a.foreign == "call" {
+			// after the scheduling point, so that the modelled critical section and the call are one step
+			in.rep.ForeignCalls++
+			foreignCalls = append(foreignCalls, simCall("Foreign", site))
+			continue
+		}
+		if a.foreign == "direct" {
+			in.rep.ForeignDirect = append(in.rep.ForeignDirect, in.site(s)+" "+a.path)
+			out = append(out, simCall("ForeignAccess", &ast.BasicLit{Kind: token.STRING, Value: strconv.Quote(a.path)}, ast.NewIdent(fmt.Sprint(a.write)), site))
+			continue
+		}
 		var obj ast.Expr = ast.NewIdent("nil")
 		if a.recv {
 			obj = ast.NewIdent(in.recv)
@@ -260,6 +316,7 @@ func (in *instr) probes(s ast.Stmt) []ast.Stmt {
 	}
 	in.rep.Steps++
 	out = append(out, &ast.ExprStmt{X: &ast.CallExpr{Fun: &ast.SelectorExpr{X: ast.NewIdent("__sim"), Sel: ast.NewIdent("Step")}, Args: []ast.Expr{site}}})
+	out = append(out, foreignCalls...)
 	return out
 }
 
@@ -389,6 +446,9 @@ func main() {
 		}
 		// imports
 		for _, im := range f.Imports {
+			if p, _ := strconv.Unquote(im.Path.Value); p == "github.com/stretchr/testify/mock" {
+				in.testify = true
+			}
 			if p, _ := strconv.Unquote(im.Path.Value); p == "sync" {
 				name := "sync"
 				if im.Name != nil {
